@@ -95,6 +95,7 @@ type c8world struct {
 	probeLg           *zap.Logger
 	failing           *zap.Logger // over a device whose writes fail
 	failingCore       zapcore.Core
+	conPanic          *zap.Logger   // console logger whose header callbacks panic for some entries
 	errFailing        *zsim.SimSink // error output of the logger over the failing device
 	errOthers         *zsim.SimSink // error output of every other logger: nothing is ever due there
 	failWant          int           // failed writes that went through the failing logger (one report each)
@@ -184,6 +185,20 @@ func (w *c8world) history(kind, a int, lg *zap.Logger) {
 			w.failing.Error("with a reflected field to a failing device", zap.Reflect("r", c8refl{a, "f", nil}))
 		}
 		w.failWant++
+	case 18:
+		// a console entry whose header callback panics after part of the header
+		// has been collected; recovered by the application
+		func() {
+			defer func() { _ = recover() }()
+			switch a % 3 {
+			case 0:
+				w.conPanic.Warn("the level encoder panics", zap.Int("a", a))
+			case 1:
+				w.conPanic.Named("boom").Info("the name encoder panics", zap.Int("a", a))
+			default:
+				w.conPanic.Named("fine").Info("neither does", zap.Int("a", a))
+			}
+		}()
 	case 17:
 		// a log call that panics half-way through encoding (namespaces open,
 		// encoders and buffers borrowed from the pools) and is recovered by the
@@ -234,7 +249,7 @@ type c8hook struct{ w *c8world }
 
 func (h c8hook) OnWrite(*zapcore.CheckedEntry, []zapcore.Field) { h.w.hookGot++ }
 
-const c8kinds = 18
+const c8kinds = 19
 
 // c8panicArr: a user marshaler with a bug. zap does not contain panics of
 // object and array marshalers; the application (an HTTP server, say) recovers
@@ -314,6 +329,27 @@ func runC08(c *Ctx) {
 		fs.FailFrom = 1
 		w.failingCore = zapcore.NewCore(mkEnc(g.Chance(2)), zapcore.Lock(fs), zapcore.DebugLevel)
 		w.failing = zap.New(w.failingCore, zap.WithClock(clk), zap.ErrorOutput(zapcore.Lock(w.errFailing)))
+	}
+	{
+		// a console logger whose header callbacks have gaps: the level encoder
+		// panics for Warn, the name encoder for one logger name (user code with
+		// a bug; the application recovers and carries on)
+		cfgP := encCfgT
+		cfgP.NameKey = "logger"
+		cfgP.EncodeLevel = func(l zapcore.Level, enc zapcore.PrimitiveArrayEncoder) {
+			if l == zapcore.WarnLevel {
+				panic("c8: the level encoder has no entry for this level")
+			}
+			zapcore.LowercaseLevelEncoder(l, enc)
+		}
+		cfgP.EncodeName = func(n string, enc zapcore.PrimitiveArrayEncoder) {
+			if n == "boom" {
+				panic("c8: the name encoder fails")
+			}
+			zapcore.FullNameEncoder(n, enc)
+		}
+		ps := zsim.NewSimSink(r, "header-panics", 1, 78)
+		w.conPanic = zap.New(zapcore.NewCore(zapcore.NewConsoleEncoder(cfgP), zapcore.Lock(ps), zapcore.DebugLevel), zap.WithClock(clk), zap.AddCaller())
 	}
 	// after the reference call the pools switch to a reusing policy
 	policy := pick(g, simsync.PoolLIFO, simsync.PoolLIFO, simsync.PoolFIFO, simsync.PoolRandom)
